@@ -297,6 +297,14 @@ func genC12(t *rapid.T) c12Case {
 			}
 			lines = append(lines, vLine{Kind: vkEntry, Name: nm, Num: num, L: vGenEntryLayout(rt, lo, "el")})
 		}
+		// one day in three carries notes (before, between or after its entries)
+		if rapid.IntRange(0, 2).Draw(rt, "notes") == 0 {
+			for k := rapid.IntRange(1, 3).Draw(rt, "nnotes"); k > 0; k-- {
+				at := rapid.IntRange(0, len(lines)).Draw(rt, "noteat")
+				nl := vGenNoteLine(rt, vLayoutOpts{NoLong: true}, "note")
+				lines = append(lines[:at], append([]vLine{nl}, lines[at:]...)...)
+			}
+		}
 		return vRec{Head: vFmtDay(day, ""), HL: vGenHeadLayout(rt, lo, "hl"), Lines: lines}
 	}
 	push := func(how string, recs []vRec, days []int) {
